@@ -53,7 +53,7 @@ def sh(cmd, cwd=None, env=None, timeout=None, inp=None):
 
 def overlay_for(prop):
     """harness/common/*.go + harness/cmd/<prop>/*.go -> /repo/cmd/verif_<prop>/ ;
-    harness/shims/<pkg path>/*.go -> /repo/<pkg path>/zz_verif_*.go"""
+    harness/cmd/<prop>/shims/<pkg path>/*.go -> /repo/<pkg path>/zz_verif_<prop>_*.go (only for that property's binary)"""
     rep = {}
     name = prop.lower()
     vdir = os.path.join(REPO, "cmd", "verif_" + name)
@@ -61,12 +61,12 @@ def overlay_for(prop):
         rep[os.path.join(vdir, "zz_common_" + os.path.basename(f))] = f
     for f in sorted(glob.glob(os.path.join(HARNESS, "cmd", name, "*.go"))):
         rep[os.path.join(vdir, os.path.basename(f))] = f
-    shim_root = os.path.join(HARNESS, "shims")
+    shim_root = os.path.join(HARNESS, "cmd", name, "shims")
     for root, _, files in os.walk(shim_root):
         for fn in files:
             if fn.endswith(".go"):
                 rel = os.path.relpath(root, shim_root)
-                rep[os.path.join(REPO, rel, "zz_verif_" + fn)] = os.path.join(root, fn)
+                rep[os.path.join(REPO, rel, "zz_verif_%s_%s" % (name, fn))] = os.path.join(root, fn)
     os.makedirs(BUILD, exist_ok=True)
     path = os.path.join(BUILD, "overlay_%s.json" % name)
     with open(path, "w") as fh:
